@@ -27,7 +27,14 @@ def handle : List String → String
     | .error _ => "invalid-bundle"
     | .ok (b, _) =>
       let adds := sortS (b.spends.flatMap (fun s => s.createCoin.map (fun c => s!"{toHex s.coinId}:{toHex c.ph}:{c.amount}")))
-      s!"adds=[{",".intercalate adds}]"
+      -- the answer of the model of `SpendBundle::additions` itself (Props/C09 `bundle_additions`: equal to the
+      -- prescription whenever no condition has a pair in the opcode position); what is printed is always the
+      -- prescription, the tag says whether the model gave it
+      match bundleAdditions css puzF with
+      | some l =>
+        let m := sortS (l.map (fun (par, ph, v) => s!"{toHex par}:{toHex ph}:{v}"))
+        if m == adds then s!"adds=[{",".intercalate m}] #model=agrees" else s!"adds=[{",".intercalate adds}] #model=differs"
+      | none => s!"adds=[{",".intercalate adds}] #model=fails"
   | "C09" :: flags :: len :: prog :: gen :: puz :: pks :: _markers =>
     match Sexp.ofBytes (hexArg prog) with
     | none => "bad-tree"
@@ -59,7 +66,22 @@ def handle : List String → String
           | some (_, out) => b.spends.all (fun s => match getPuzzleAndSolution out s.parentId s.puzzleHash s.coinAmount with
               | some (pz, _) => Sexp.treeHash pz == s.puzzleHash
               | none => false)
-        s!"rem=[{rems}] add=[{adds}] || rebuild=same lookup=found || vrem=[{rems}] vadd=[{adds}] || scanner={if scanOk && lookupOk then "agrees" else "differs"}"
+        -- the model of `get_coinspends_for_trusted_block` (Props/C09 `coinspends_rebuild_reversed`): the recovered
+        -- coin spends name the validated coins in order, and the generator `build_generator` makes of them (spends
+        -- reversed, puzzle runs re-indexed) is accepted by the native model with the same spend records
+        let coinspendsOk := match getCoinspends fits2MB p g genRun with
+          | none => false
+          | some css =>
+            let n := css.length
+            let named := css.map (fun cs => (cs.parent, cs.puzzleHash, cs.amount)) == b.spends.map (fun s => (s.parentId, s.puzzleHash, s.coinAmount))
+            let gtree := buildGenerator css
+            let g2 : GenInput := { len := (Sexp.serialize gtree).length, startsQuote := true, prog := gtree, nrefs := 0 }
+            let genRun2 : RunRes := some (20, .pair (Sexp.ofList ((css.map (fun s => Sexp.ofList [.atom s.parent, s.puzzle, .atom (canonNat s.amount), s.solution])).reverse)) Sexp.nil)
+            let puzRev := fun i => puzF (n - 1 - i)
+            named && (match native p g2 genRun2 puzRev 1000000000000000 with
+              | .ok b2 => b2.spends.map C01.spendS == (b.spends.map C01.spendS).reverse
+              | .error _ => false)
+        s!"rem=[{rems}] add=[{adds}] || rebuild=same lookup=found || vrem=[{rems}] vadd=[{adds}] || scanner={if scanOk && lookupOk && coinspendsOk then "agrees" else "differs"}"
   | _ => "bad-op"
 
 end ChiaModel.Drv.C09
